@@ -85,6 +85,15 @@ pub fn run_case(c: &J) -> J {
             }
             json!({"result": "ok", "nops": g.ops.len(), "ops": ops, "full": slim(&full), "prefixes": prefixes, "filelen": g.data.len()})
         }
+        "refused" => {
+            // an input the writer refuses part-way: what is the destination left with?
+            let sink = OpSink::new(None);
+            let res = std::panic::catch_unwind(std::panic::AssertUnwindSafe(|| write_to(c, &ctx, sink.clone())));
+            let r = match res { Ok(Ok(())) => "ok", Ok(Err(_)) => "err", Err(_) => "panic" };
+            let data = sink.inner.lock().map(|g| g.data.clone()).unwrap_or_default();
+            let left = slim(&observe(c, data.clone()));
+            json!({"result": r, "left": left, "filelen": data.len()})
+        }
         "fault" => {
             let k = c["fault"].as_u64().unwrap() as usize;
             let sink = OpSink::new(Some(k));
